@@ -65,9 +65,9 @@ const KINDS: &[Kind] = &[
     Kind { tag: "percent-encoded", regexes: &["([\\p{Ll}0-9]|%[0-9A-Z]{2})+?"], any: false, simple: false,
            vals: &[a("abc1"), x("caf\u{e9}", "caf%C3%A9", true, true), a("a%20b"), x("a b", "a%20b", true, false), r(""), r("A"), r("%zz"), r("a-b")] },
     Kind { tag: "anything-star", regexes: &[".*"], any: true, simple: false,
-           vals: &[a("x"), a(""), a("a-b"), a("A/b.c"), x("\u{e9} t", "%C3%A9%20t", true, true), a("12"), a("Foo_Bar")] },
+           vals: &[a("x"), a(""), a("a-b"), a("A/b.c"), x("\u{e9} t", "%C3%A9%20t", true, true), a("12"), a("Foo_Bar"), a("@id"), a("u@ab"), a("@a@b")] },
     Kind { tag: "anything-lazy", regexes: &["(?:.+?)", ".+?"], any: true, simple: false,
-           vals: &[a("x"), a("a-b"), a("A/b.c"), x("\u{e9} t", "%C3%A9%20t", true, true), a("12"), a("foo-bar_Baz"), r("")] },
+           vals: &[a("x"), a("a-b"), a("A/b.c"), x("\u{e9} t", "%C3%A9%20t", true, true), a("12"), a("foo-bar_Baz"), a("@id2"), a("@n"), r("")] },
     // a non-ASCII expression: Rule::markers percent-encodes it, so it accepts the ENCODED text (the sanitised path, or a
     // header value that literally carries %C3%A9), never the raw character
     Kind { tag: "enum-non-ascii", regexes: &["(caf\u{e9}|th\u{e9}|x)"], any: false, simple: false,
@@ -152,7 +152,8 @@ fn ref_transform(t: &Value, v: &str) -> Result<String, ()> {
                 let to = ref_usize(t).unwrap_or(len);
                 if from > len { return Ok(String::new()); }
                 let to = to.min(len);
-                if from > to || !v.is_char_boundary(from as usize) || !v.is_char_boundary(to as usize) { return Err(()); }
+                // str.get(from..to).unwrap_or_default() since db79cd0 (the pinned str[from..to] panicked here)
+                if from > to || !v.is_char_boundary(from as usize) || !v.is_char_boundary(to as usize) { return Ok(String::new()); }
                 Ok(String::from_utf8(v.as_bytes()[from as usize..to as usize].to_vec()).unwrap())
             }
             _ => Ok(v.to_string()),
@@ -183,6 +184,15 @@ fn ref_subst(vars: &[(String, String)], text: &str) -> String {
         i += 1;
     }
     String::from_utf8(out).unwrap()
+}
+/// the PINNED algorithm (before df98c41): one str::replace per variable, longest names first (stable); only for the tag
+/// that counts the cases on which the repair matters
+fn pinned_subst(vars: &[(String, String)], text: &str) -> String {
+    let mut v = vars.to_vec();
+    v.sort_by(|a, b| b.0.len().cmp(&a.0.len()));
+    let mut cur = text.to_string();
+    for nv in &v { cur = cur.replace(&format!("@{}", nv.0), &nv.1); }
+    cur
 }
 /// how many names follow some '@' of the text (max over the '@'s)
 fn max_names_at(vars: &[(String, String)], text: &str) -> usize {
@@ -230,7 +240,7 @@ fn gen_transformers(rng: &mut Rng, sample: &str) -> Value {
                     4 => "%".to_string(),
                     _ => "zz".to_string(),
                 };
-                let with = *rng.pick(&["", "X", "\u{e9}", "--", "/", "a", "aa", "%20"]);
+                let with = *rng.pick(&["", "X", "\u{e9}", "--", "/", "a", "aa", "%20", "@id", "@a"]);
                 json!({"type": "replace", "options": {"something": something, "with": with}})
             }
             7 | 8 | 9 => {
@@ -251,7 +261,7 @@ fn gen_transformers(rng: &mut Rng, sample: &str) -> Value {
             10 => json!({"type": *rng.pick(&["reverse", "Lowercase", ""]), "options": null}),
             _ => match rng.below(3) { 0 => json!({"type": null, "options": null}), 1 => json!({"type": "replace", "options": {"something": "a"}}), _ => json!({"type": "replace", "options": null}) },
         };
-        // a chain that would make the crate panic (slice with from > to, or inside a character) is a C07 matter
+        // (before db79cd0 a slice with from > to or a bound inside a character panicked and such chains were skipped here)
         match ref_transform(&t, &cur) { Ok(nv) => { cur = nv; ts.push(t); } Err(()) => {} }
     }
     json!(ts)
@@ -276,9 +286,9 @@ fn pick_val(rng: &mut Rng, kind: &Kind, want_ok: bool, place: &str, avoid: &str,
 }
 
 fn gen_text(rng: &mut Rng, vars: &[(String, String)], lead: &str) -> String {
-    let mut tries = 0;
-    loop {
-        tries += 1;
+    // since df98c41 the substitution is one pass: texts outside the side condition of C10_substitute (a strict prefix
+    // of a name between two '@', references glued to each other) are in the domain and generated freely
+    {
         let nrefs = 1 + rng.below(3);
         let mut t = lead.to_string();
         for k in 0..nrefs {
@@ -293,7 +303,7 @@ fn gen_text(rng: &mut Rng, vars: &[(String, String)], lead: &str) -> String {
             }
         }
         if rng.chance(1, 2) { t.push_str(*rng.pick(&["", "/", ".html", "?a=1", "-end", "@", "b"])); }
-        if subst_safe(vars, &t) || tries > 40 { if tries > 40 { return lead.to_string(); } return t; }
+        t
     }
 }
 
@@ -509,7 +519,6 @@ fn gen_case(rng: &mut Rng, stream: &str) -> Option<Value> {
                 6 => { let m = &input[rng.below(input.len())]; (json!({"marker": m.0}), m.1.clone()) }
                 _ => (json!({"marker": "nosuch"}), String::new()),
             };
-            if base.contains('@') { continue; }
             let ts = if rng.chance(1, 2) { gen_transformers(rng, &base) } else { json!([]) };
             variables_json.push(json!({"name": n, "type": ty, "transformers": ts}));
             vars.push((n, ref_chain(&ts, &base).ok()?));
@@ -785,6 +794,7 @@ o_route := {}; o_panic := {}; o_match := {}; o_captured := {}; o_location := {};
             if ref_usize(f).is_none() { tags.push("slice:from-unparsable(0)".into()); }
             if ref_usize(to).is_none() { tags.push("slice:to-unparsable(end)".into()); }
             if ref_usize(f).map(|x| x >= 90).unwrap_or(false) { tags.push("slice:from-beyond-end".into()); }
+            if let (Some(a), Some(b)) = (ref_usize(f), ref_usize(to)) { if a > b { tags.push("slice:from>to".into()); } }
             if ref_usize(to).map(|x| x >= 90).unwrap_or(false) { tags.push("slice:to-beyond-end".into()); }
         }
     }
@@ -803,6 +813,11 @@ o_route := {}; o_panic := {}; o_match := {}; o_captured := {}; o_location := {};
     for f in r["body_filters"].as_array().map(|a| a.as_slice()).unwrap_or(&[]) { for k in ["content", "value", "inner_value"] { if let Some(s) = f.get(k).and_then(|x| x.as_str()) { texts.push(s.to_string()); } } }
     if texts.iter().any(|t| max_names_at(&expv, t) >= 2) { tags.push("ref:longest-of-several-names".into()); }
     if texts.iter().any(|t| t.contains("@zz")) { tags.push("ref:unknown-name".into()); }
+    // classes on which the pinned sequential algorithm differed from the property (fixed by df98c41)
+    if expv.iter().any(|nv| nv.1.contains('@')) { tags.push("subst:value-contains-at".into()); }
+    if expv.iter().any(|nv| expv.iter().any(|m| nv.1.contains(&format!("@{}", m.0)))) { tags.push("subst:value-contains-at-name".into()); }
+    if texts.iter().any(|t| !subst_safe(&expv, t)) { tags.push("subst:outside-pinned-side-condition".into()); }
+    if obs.matched && texts.iter().any(|t| pinned_subst(&expv, t) != ref_subst(&expv, t)) { tags.push("subst:pinned-algorithm-would-differ".into()); }
     if texts.iter().any(|t| { let ch: Vec<&str> = t.split('@').collect(); ch.len() > 2 && ch[1..ch.len() - 1].iter().any(|u| expv.iter().any(|nv| nv.0 == *u)) }) { tags.push("ref:adjacent".into()); }
     if texts.iter().any(|t| t.ends_with('@') || t.contains("@/")) { tags.push("ref:literal-at".into()); }
     if !r["header_filters"].as_array().map(|a| a.is_empty()).unwrap_or(true) { tags.push("out:header-filter".into()); }
